@@ -15,7 +15,7 @@ from harness import common as C
 
 HEADER = """From Coq Require Import List ZArith QArith Bool. Import ListNotations.
 From Coq Require Import Uint63.
-From TLV Require Import Base.Ops Base.Tensor Model.Svd Corr.C05.
+From TLV Require Import Base.Ops Base.Tensor Model.Svd Model.SvdComplex Model.SvdValidate Corr.C05.
 Open Scope nat_scope.
 Notation "'D' m e" := (dy false m%uint63 e%uint63) (at level 0, m at level 0, e at level 0, only parsing).
 Notation "'N' m e" := (dy true m%uint63 e%uint63) (at level 0, m at level 0, e at level 0, only parsing)."""
@@ -53,6 +53,43 @@ def qvec(v):
 def triple_lit(t):
     U, S, V = t
     return f"({qmat(U)}, {qvec(S)}, {qmat(V)})"
+
+
+def cq(z):
+    z = complex(z)
+    return f"({dq(z.real)}, {dq(z.imag)})"
+
+
+def cmat_lit(a):
+    a = np.asarray(a, dtype=complex)
+    if a.ndim != 2:
+        raise ValueError("not a matrix")
+    rows = ["[" + "; ".join(cq(z) for z in r) + "]" if len(r) else "(@nil C)" for r in a]
+    return "[" + "; ".join(rows) + "]" if rows else "(@nil (list C))"
+
+
+def cvec_lit(v):
+    v = np.asarray(v, dtype=complex).ravel()
+    return "[" + "; ".join(cq(z) for z in v) + "]" if v.size else "(@nil C)"
+
+
+def ctriple_lit(t):
+    U, S, V = t
+    return f"({cmat_lit(U)}, {cvec_lit(S)}, {cmat_lit(V)})"
+
+
+def near_tie(vecs, rel=1e-9):
+    """a deciding vector has two DIFFERENT entries whose magnitudes are within rounding distance of the maximum: the exact-arithmetic
+    model (squared magnitudes over Q) and np.argmax(np.abs(.)) may then pick different entries; such requests are skipped (counted)"""
+    for v in vecs:
+        v = np.asarray(v)
+        if v.size < 2:
+            continue
+        a = np.abs(v)
+        top = v[a >= a.max() * (1 - rel) - 1e-300]
+        if top.size >= 2 and a.max() > 0 and np.any(top != top[0]):
+            return True
+    return False
 
 
 def optnat(n):
@@ -1154,7 +1191,9 @@ def run(chk):
                        "x methods truncated/symeig/randomized/callable x flip {off, U-based, V-based}, plus masked (incl. masked randomized_svd with keyword arguments, a masked callable with an extra keyword, "
                        "a mask without n_eigenvecs, mask + non_negative) and non_negative requests; every configuration "
                        "goes through the Python predicates, the Coq correspondence takes all truncated_svd and masked configurations and a fixed fraction of the others "
-                       "(matrices up to 6x6; quick: per shape two of the four kinds), plus direct svd_flip calls on tie/zero/padding matrices, direct symeig_svd calls on well-conditioned matrices "
+                       "(matrices up to 6x6; quick: per shape two of the four kinds), plus direct svd_flip calls on tie/zero/padding matrices, complex svd_flip calls and complex "
+                       "svd_interface requests (truncated_svd / symeig_svd) evaluated in the Gaussian-rational model, argument-validation requests (non-matrix inputs, "
+                       "unknown method, every kind of non_negative value), direct symeig_svd calls on well-conditioned matrices "
                        "and direct randomized_svd calls (n_oversamples 0/1/2/5, n_iter 0/1/2, generic / integer / rank-deficient matrices); "
                        "non-trivial = matrix with more than one entry; distinct key = (method, shape, kind, n_eigenvecs, flip options, non_negative, masked)")
     chk.assumptions = ["np.linalg.svd / eigh meet their contract (orthonormal factors, sorted non-negative S, U S V = M); measured on this run by the residual predicates",
@@ -1243,8 +1282,8 @@ def direct_cases(chk, tier, rng):
         nsym -= 1
         chk.count(key=("symeig_svd", M.shape, n, M.tobytes()), nontrivial=M.size > 1)
         chk.hist("method", "symeig_svd(direct)")
-        _, lam, W = tape[0]
-        dcases.append(f"(DSymeig {len(dcases)}%nat {d1}%nat {d2}%nat {optnat(n)} {qmat(M)} {qvec(lam)} {qmat(W)} {triple_lit(out[1])})")
+        Gin, lam, W = tape[0]
+        dcases.append(f"(DSymeig {len(dcases)}%nat {d1}%nat {d2}%nat {optnat(n)} {qmat(M)} {qmat(Gin)} {qvec(lam)} {qmat(W)} {triple_lit(out[1])})")
         dmeta.append({"call": "symeig_svd", "matrix": M, "n_eigenvecs": n})
     # randomized_svd called directly: Gaussian test matrix, every tl.qr and tl.svd answer taped; the model does the products,
     # transposes, branch condition, n_dims, inner truncation and the lifting by Q
@@ -1323,7 +1362,8 @@ def direct_cases(chk, tier, rng):
             continue
         dcases.append(lit)
         dmeta.append(meta_)
-    complex_cases(chk, tier, rng, svdmod)
+    complex_cases(chk, tier, rng, svdmod, dcases, dmeta)
+    reject_cases(chk, svdmod, dcases, dmeta)
     return dcases, dmeta
 
 
@@ -1338,7 +1378,35 @@ def _has_real_max(v, tol):
     return bool(np.any(top & (np.abs(v.imag) <= tol * max(1.0, float(a.max()))) & (v.real >= -tol)))
 
 
-def complex_cases(chk, tier, rng, svdmod):
+NNREQ = [(None, "NRnone"), (False, "NRfalse"), (True, "NRtrue"), ("nndsvd", "NRnndsvd"), ("nndsvda", "NRnndsvda"), ("foo", "NRother"), (0, "NRother"), ("", "NRother")]
+
+
+def reject_cases(chk, svdmod, dcases, dmeta):
+    """argument validation (Model/SvdValidate.v request_rejected): non-matrix inputs for the built-in methods, unknown method names,
+    every kind of non_negative value; the implementation must raise exactly when the model says so (and by ValueError, not by a crash)"""
+    shapes = [(), (3,), (2, 2, 2), (1, 2, 1, 2), (2, 3), (3, 2)]
+    for shp in shapes:
+        for method in ("truncated_svd", "symeig_svd", "randomized_svd", "callable", "no_such_svd"):
+            if method == "callable" and len(shp) != 2:
+                continue          # tensorly does not validate for a callable; what a user function does with a non-matrix is its own business
+            for (nnv, nnlit) in NNREQ:
+                if len(shp) != 2 and nnv not in (None, "foo"):
+                    continue
+                X = np.arange(1.0, 1.0 + int(np.prod(shp, dtype=int))).reshape(shp) if len(shp) else np.array(1.0)
+                meth = numpy_thin_svd if method == "callable" else method
+                kw = {"random_state": 3} if method == "randomized_svd" else {}
+                out = C.call_impl(lambda: svdmod.svd_interface(X.copy(), method=meth, n_eigenvecs=1, non_negative=nnv, **kw))
+                inp = {"shape": list(shp), "method": method, "non_negative": repr(nnv), "n_eigenvecs": 1}
+                chk.count(key=("validation", shp, method, repr(nnv)), nontrivial=True)
+                chk.hist("method", "validation")
+                if out[0] == "crash" or (out[0] == "reject" and not str(out[1]).startswith("ValueError")):
+                    chk.finding(EP, inp, f"invalid argument not rejected by ValueError: {out[0]} {str(out[1])[:100]}", "C05_validation")
+                    continue
+                dcases.append(f"(DReject {len(dcases)}%nat {C.nat_list(list(shp))} {METH_LIT.get(method, 'MUnknown')} {nnlit} {C.boolc(out[0] != 'ok')})")
+                dmeta.append(dict(inp, call="svd_interface(validation)"))
+
+
+def complex_cases(chk, tier, rng, svdmod, dcases=None, dmeta=None):
     """complex input (svd_flip as of ca31a67, symeig_svd as of d995974).  Predicates only (tests): the executable model's scalars are
     real (the complex-aware model Model/SvdConj.v equals it for real scalars, C05_flip_conj_real); the statements tested are
     C05_conj_flip_product_u / _v and C05_conj_flip_deciding (any commutative ring with conjugation)."""
@@ -1376,6 +1444,12 @@ def complex_cases(chk, tier, rng, svdmod):
                 msg = "svd_flip changes the product U V (complex input)"
         if msg:
             chk.finding("tensorly.tenalg.svd.svd_flip", inp, msg, "C05_flip_complex")
+        if dcases is not None:
+            if near_tie([U[:, j] for j in range(c)] if ub else [V[i, :] for i in range(r)]):
+                chk.cov["complex_near_tie_skipped"] = chk.cov.get("complex_near_tie_skipped", 0) + 1
+            else:
+                dcases.append(f"(DFlipC {len(dcases)}%nat {cmat_lit(U)} {cmat_lit(V)} {C.boolc(ub)} {cmat_lit(U2)} {cmat_lit(V2)})")
+                dmeta.append(dict(inp, call="svd_flip(complex)"))
     # svd_interface on well-conditioned complex matrices: Hermitian orthonormality, true singular values, error identity, sign convention
     n_if, tries = (24 if tier == "quick" else 160), 0
     while n_if > 0 and tries < 5000:
@@ -1390,7 +1464,18 @@ def complex_cases(chk, tier, rng, svdmod):
         n = rng.randint(1, min(d1, d2))
         ub = rng.random() < 0.5
         kw = {"random_state": rng.randrange(10 ** 6)} if method == "randomized_svd" else {}
-        out = C.call_impl(lambda: svdmod.svd_interface(M.copy(), method=method, n_eigenvecs=n, flip_sign=True, u_based_flip_sign=ub, **kw))
+        from tensorly.backend.numpy_backend import NumpyBackend
+        etape = []
+
+        def rec_eigh(a_, *args, **kw_):
+            r_ = np.linalg.eigh(a_, *args, **kw_)
+            etape.append((np.array(a_, copy=True), np.array(r_[0], copy=True), np.array(r_[1], copy=True)))
+            return r_
+        NumpyBackend.register_method("eigh", rec_eigh)
+        try:
+            out = C.call_impl(lambda: svdmod.svd_interface(M.copy(), method=method, n_eigenvecs=n, flip_sign=True, u_based_flip_sign=ub, **kw))
+        finally:
+            NumpyBackend.register_method("eigh", np.linalg.eigh)
         chk.count(key=("svd_interface_complex", method, M.shape, n, ub, M.tobytes()), nontrivial=M.size > 1)
         chk.hist("method", method + "(complex)")
         inp = {"matrix": [[str(z) for z in row] for row in M], "method": method, "n_eigenvecs": n, "flip_sign": True, "u_based_flip_sign": ub, "kwargs": kw}
@@ -1416,6 +1501,25 @@ def complex_cases(chk, tier, rng, svdmod):
                 msg = "a deciding entry is not real positive"
         if msg:
             chk.finding(EP, inp, msg + " (complex input)", "C05_complex")
+        # the same request inside Coq: Gaussian-rational model (Model/SvdComplex.v), LAPACK's / eigh's answer taped
+        if dcases is not None and method in ("truncated_svd", "symeig_svd") and finite3((np.abs(U), np.abs(S), np.abs(V))):
+            if method == "truncated_svd":
+                a_, b_ = np.linalg.svd(M, full_matrices=True), np.linalg.svd(M, full_matrices=False)
+                tape, pre = f"(CTsvd {ctriple_lit(a_)} {ctriple_lit(b_)})", (b_[0][:, :n], b_[2][:n, :])
+            elif len(etape) == 1:
+                Gin_, lam_, W_ = etape[0]
+                tape = f"(CTeigh {cmat_lit(Gin_)} {cvec_lit(lam_)} {cmat_lit(W_)})"
+                pre = None
+            else:
+                tape = None
+            if tape is not None:
+                # deciding vectors before the flip have the same magnitudes as after it
+                if near_tie([U[:, j] for j in range(n)] if ub else [V[i, :] for i in range(n)], rel=1e-7):
+                    chk.cov["complex_near_tie_skipped"] = chk.cov.get("complex_near_tie_skipped", 0) + 1
+                else:
+                    dcases.append(f"(DIfaceC {len(dcases)}%nat {d1}%nat {d2}%nat {METH_LIT[method]} {optnat(n)} true {C.boolc(ub)} "
+                                  f"{cmat_lit(M)} {tape} (Ok {ctriple_lit((U, S, V))}))")
+                    dmeta.append(dict(inp, call="svd_interface(complex)"))
 
 
 # ----------------------------------------------------------------------------- replay
@@ -1433,8 +1537,15 @@ def replay(payload):
         return 1
     ep = payload["entry_point"]
     inp = payload["inputs"]
+    cfg = None
     if ep == EP:
-        cfg = cfg_from_inputs(inp)
+        try:
+            cfg = cfg_from_inputs(inp)        # validation / complex findings carry no real matrix: they replay through the direct streams
+            if cfg["matrix"] is None or cfg["matrix"].dtype.kind not in "fiu":
+                cfg = None
+        except Exception:  # noqa
+            cfg = None
+    if cfg is not None:
         out, tp, M_last, bad = evaluate(cfg)
         names = [p for p, _ in bad]
         print("replay:", cfg["method"], cfg["matrix"].shape, "n_eigenvecs=", cfg["n"], "->", bad or "holds")
